@@ -192,7 +192,15 @@ struct Ctx {
     void check(char const* subj, V const& got, V const& want, Cls&& cls, Kase&& kase)
     {
         ++evals;
-        if (!(got == want)) { r.violation("C11", subj, cls(), kase(), cat("tetl=", got.str(), " std=", want.str())); }
+        if (!(got == want)) {
+            // only the first witness of a (subject, class) needs its case/detail text; the rest is counted
+            auto const it = r.viols.find(std::make_tuple(std::string("C11"), std::string(subj), cls()));
+            if (it != r.viols.end()) {
+                it->second.count += 1;
+            } else {
+                r.violation("C11", subj, cls(), kase(), cat("tetl=", got.str(), " std=", want.str()));
+            }
+        }
         auto const now = mc::san_hits();
         if (now != san) {
             san = now;
